@@ -12,6 +12,8 @@ import Proofs.C03Sound
 import Proofs.C03Reject
 import Proofs.C03Cex
 import Proofs.C03Handshake
+import Proofs.C03HsCache
+import Proofs.C03Compress
 namespace C03
 open FrameSpec FrameWrite
 
@@ -389,6 +391,73 @@ theorem C03_cex_short_string_too_long (id : Bytes) (hn : 65535 < id.length) (hn2
     omega
   · exact h
 
+/-! ## compression on / off (the framing around the algorithm; the algorithms themselves are C18) -/
+
+/-- **C03_roundtrip_compressed.** With ANY compressor configured whose decompression undoes its
+    compression (and whose output for a frame-sized input fits the length field): for every version
+    1..5, tracing flag, in-range stream id and every expressible request of the eight kinds, the frame
+    the builder produces — header flag 0x01 set and the bytes after the header = Encode(custom payload ++
+    message body), length field = the compressed size; STARTUP and OPTIONS left uncompressed — is read
+    back by the compression-aware specification decoder as exactly the version, tracing flag, stream id
+    and request that was asked for, leaving exactly the bytes that follow. -/
+theorem C03_roundtrip_compressed (enc : Bytes → Bytes) (dec : Bytes → Option Bytes)
+    (hinv : ∀ b, dec (enc b) = some b)
+    (hsize : ∀ b, b.length ≤ maxFrameSize → (enc b).length < 2147483648)
+    (v : Nat) (tracing : Bool) (stream now : Int) (g : GReq) (bs rest : Bytes)
+    (hv1 : 1 ≤ v) (hv5 : v ≤ 5) (hs : StreamInRange v stream)
+    (hx : Expressible v (ask now g) = true)
+    (he : encodeReqC (some enc) v tracing stream now g = .ok bs) :
+    decodeReqC dec (bs ++ rest) = some ⟨v, tracing, stream, ask now g, rest⟩ := by
+  obtain ⟨full, he0, hsz, hbs⟩ := encodeReqC_some enc v tracing stream now g bs he
+  have hr := C03_roundtrip v tracing stream now g _ rest hv1 hv5 hs hx he0
+  obtain ⟨b0, b1, hfl1⟩ := headerFlags_even v tracing g
+  have hfl : headerFlags v tracing g < 256 := by omega
+  have hlen : full.length < 2147483648 := by unfold maxFrameSize at hsz; split at hsz <;> omega
+  rw [decodeReq_frame v _ stream _ full rest hv1 hv5 hs hfl (opcode_lt g) hlen] at hr
+  subst hbs
+  by_cases hc : compressible g = true
+  · simp only [hc, if_true]
+    have hlen' : (enc full).length < 2147483648 := hsize full (by split at hsz <;> omega)
+    rw [decodeReqC_frame dec v _ stream _ (enc full) rest hv1 hv5 hs hfl1 (opcode_lt g) hlen']
+    rw [if_pos b1, if_neg (opcode_compressible g hc), hinv]
+    simpa using hr
+  · have hc' : compressible g = false := by simpa using hc
+    simp only [hc', Bool.false_eq_true, if_false]
+    rw [decodeReqC_frame dec v _ stream _ full rest hv1 hv5 hs hfl (opcode_lt g) hlen]
+    simp only [b0, Bool.false_eq_true, if_false]
+    exact hr
+
+/-- **C03_compress_flag_iff.** Which frames carry the compression flag: exactly those built with a
+    compressor configured, other than STARTUP and OPTIONS — for every version, request and compressor. -/
+theorem C03_compress_flag_iff (comp : Option (Bytes → Bytes)) (v : Nat) (tracing : Bool) (stream now : Int) (g : GReq)
+    (bs : Bytes) (he : encodeReqC comp v tracing stream now g = .ok bs) :
+    ∃ a f r, bs = a :: f :: r ∧ (f.toNat % 2 = 1 ↔ (comp.isSome = true ∧ compressible g = true)) := by
+  obtain ⟨b0, b1, hfl1⟩ := headerFlags_even v tracing g
+  have hodd : (byteOf (headerFlags v tracing g + 1)).toNat % 2 = 1 := by
+    have : (byteOf (headerFlags v tracing g + 1)).toNat = headerFlags v tracing g + 1 := by
+      simp only [byteOf, UInt8.toNat_ofNat']; omega
+    rw [this]; simpa [bit] using b1
+  have heven : ¬ (byteOf (headerFlags v tracing g)).toNat % 2 = 1 := by
+    have : (byteOf (headerFlags v tracing g)).toNat = headerFlags v tracing g := by
+      simp only [byteOf, UInt8.toNat_ofNat']; omega
+    rw [this]; simpa [bit] using b0
+  cases comp with
+  | none =>
+    rw [encodeReqC_none] at he
+    obtain ⟨full, hbs⟩ := encodeReq_shape v tracing stream now g bs he
+    obtain ⟨r, hr⟩ := wHeader_shape v (headerFlags v tracing g) stream (opcode g) full.length full
+    exact ⟨_, _, r, by rw [hbs, hr], by simp [heven]⟩
+  | some enc =>
+    obtain ⟨full, _, _, hbs⟩ := encodeReqC_some enc v tracing stream now g bs he
+    by_cases hc : compressible g = true
+    · simp only [hc, if_true] at hbs
+      obtain ⟨r, hr⟩ := wHeader_shape v (headerFlags v tracing g + 1) stream (opcode g) (enc full).length (enc full)
+      exact ⟨_, _, r, by rw [hbs, hr], by simp [hodd, hc]⟩
+    · have hc' : compressible g = false := by simpa using hc
+      simp only [hc', Bool.false_eq_true, if_false] at hbs
+      obtain ⟨r, hr⟩ := wHeader_shape v (headerFlags v tracing g) stream (opcode g) full.length full
+      exact ⟨_, _, r, by rw [hbs, hr], by simp [heven, hc']⟩
+
 /-! ## map order -/
 
 /-- **C03_map_order_irrelevant.** The STARTUP options and the custom payload are Go maps, written
@@ -508,6 +577,95 @@ theorem C03_hs_auth_frame_round (cfg : Config) (au : Authn) (now : Int) (m : Lis
   expectAll_get cfg.v _ _ _ (C03_hs_frames cfg au now _ streams frames hv1 hv5 hs hx he) (k + 2) _ _
     (C03_hs_auth_token_round cfg au m cls cs more k hk hA h0 hc)
 
+/-! ### the prepared-statement cache across executions, and UNPREPARED → re-PREPARE -/
+
+open Handshake in
+/-- **C03_hs_execute_id_from_peer.** For every configuration, authenticator, plan and EVERY peer script
+    (protocol-conforming or not, any number of executions of the same or of different statements, any
+    number of UNPREPARED errors): an EXECUTE the model of conn.go (executeQuery + the session's
+    prepared-statement cache) ever writes carries an id that the peer handed out in a PREPARED answer of
+    this very exchange — never an invented, truncated or stale-from-elsewhere id. -/
+theorem C03_hs_execute_id_from_peer (cfg : Config) (au : Authn) (answers : List PeerAnswer) (id : Bytes) (p : GParams)
+    (pl : GPayload) (z : Bool) (h : (GReq.execute id p pl, z) ∈ modelReqs cfg au answers) :
+    ∃ n, PeerAnswer.prepared id n ∈ answers := by
+  have hm : (ask 0 (GReq.execute id p pl), z) ∈ (modelReqs cfg au answers).map (fun q => (ask 0 q.1, q.2)) :=
+    List.mem_map.mpr ⟨_, h, rfl⟩
+  have h1 : (List.map (tagP 0) (run cfg au (Handshake.init cfg) answers)) = specRun cfg au .options answers :=
+    (run_sim cfg au 0 answers (Handshake.init cfg) (init_inv cfg au)).1
+  simp only [modelReqs, List.map_cons, List.mem_cons] at hm
+  rcases hm with hm | hm
+  · simp [ask] at hm
+  · have hm' : (ask 0 (GReq.execute id p pl), z) ∈ specRun cfg au .options answers := by
+      rw [← h1]; exact hm
+    exact specRun_ids (fun i => ∃ n, PeerAnswer.prepared i n ∈ answers) cfg au answers .options
+      (fun i n hmem => ⟨n, hmem⟩) (idsFrom_nil _) _ hm'
+
+open Handshake in
+/-- **C03_hs_cache_hit.** Wherever in a plan a statement is prepared and executed, and the next action
+    executes the same statement again (other consistency, other values of the same number): the requests
+    are EXECUTE id, EXECUTE id — no second PREPARE, the id of the PREPARED answer both times, each
+    with its own values. For every state of the exchange, every continuation. -/
+theorem C03_hs_cache_hit (cfg : Config) (au : Authn) (z : Bool) (curKs : Bytes) (known : Known) (stmt : Bytes)
+    (cons cons2 : Nat) (vals vals2 : List (Option Bytes)) (rest : List Action) (id : Bytes) (more : List PeerAnswer)
+    (hn : vals2.length = vals.length) :
+    specRun cfg au (.prep z curKs known stmt cons vals (.exec stmt cons2 vals2 :: rest))
+        (.prepared id vals.length :: .void :: more) =
+      (specExecute cfg curKs id cons vals, z) :: (specExecute cfg curKs id cons2 vals2, z) ::
+        specRun cfg au (.exe z curKs (((curKs, stmt), (id, vals.length)) :: known) stmt cons2 vals2 rest) more := by
+  simp [specRun, specStep, specNext, specExec, hn]
+
+open Handshake in
+/-- **C03_hs_unprepared_reprepare.** An EXECUTE answered by ERROR Unprepared naming the known id of the
+    statement: the next requests are PREPARE of that very statement (with the per-request keyspace of the
+    version) and then EXECUTE with the id of the NEW PREPARED answer and the same consistency and values —
+    whatever else is known, wherever in the plan. -/
+theorem C03_hs_unprepared_reprepare (cfg : Config) (au : Authn) (z : Bool) (curKs : Bytes) (known : Known) (stmt : Bytes)
+    (cons : Nat) (vals : List (Option Bytes)) (rest : List Action) (id : Bytes) (n0 : Nat) (id2 : Bytes)
+    (more : List PeerAnswer) (hk : known.lookup (curKs, stmt) = some (id, n0)) :
+    specRun cfg au (.exe z curKs known stmt cons vals rest) (.unprepared id :: .prepared id2 vals.length :: more) =
+      (specPrepare cfg.v curKs stmt, z) :: (specExecute cfg curKs id2 cons vals, z) ::
+        specRun cfg au (.exe z curKs (((curKs, stmt), (id2, vals.length)) :: known.filter (fun e => e.1 != (curKs, stmt)))
+          stmt cons vals rest) more := by
+  have hf : specForget known (curKs, stmt) id = known.filter (fun e => e.1 != (curKs, stmt)) := by
+    simp [specForget, hk]
+  simp [specRun, specStep, hf, specExec, lookup_filter_ne]
+
+open Handshake in
+/-- an UNPREPARED that names ANOTHER id says nothing about the known one: the EXECUTE is repeated
+    unchanged (conn.go: evictPreparedID compares the ids; a conforming server never answers so) -/
+theorem C03_hs_unprepared_other_id (cfg : Config) (au : Authn) (z : Bool) (curKs : Bytes) (known : Known) (stmt : Bytes)
+    (cons : Nat) (vals : List (Option Bytes)) (rest : List Action) (id uid : Bytes) (more : List PeerAnswer)
+    (hk : known.lookup (curKs, stmt) = some (id, vals.length)) (hne : id ≠ uid) :
+    specRun cfg au (.exe z curKs known stmt cons vals rest) (.unprepared uid :: more) =
+      (specExecute cfg curKs id cons vals, z) :: specRun cfg au (.exe z curKs known stmt cons vals rest) more := by
+  have hf : specForget known (curKs, stmt) uid = known := by simp [specForget, hk, hne]
+  simp [specRun, specStep, hf, specExec, hk]
+
+open Handshake in
+/-- **C03_hs_execute_from_plan.** For every configuration, authenticator, plan and EVERY peer script: an
+    EXECUTE that is due is the execution of an `exec` action of the plan — its consistency, its values
+    (null / bytes as given, positional, in order), skip-metadata as configured, the per-request keyspace
+    of the version, nothing else set, no custom payload; however often the statement was executed
+    before and however many UNPREPARED rounds were needed. -/
+theorem C03_hs_execute_from_plan (cfg : Config) (au : Authn) (answers : List PeerAnswer) (id : Bytes) (p : QParams)
+    (pl : Payload) (z : Bool) (h : (Req.execute id p pl, z) ∈ specReqs cfg au answers) :
+    ∃ stmt cons vals curKs, Action.exec stmt cons vals ∈ cfg.plan ∧
+      Req.execute id p pl = specExecute cfg curKs id cons vals := by
+  simp only [specReqs, List.mem_cons] at h
+  rcases h with h | h
+  · cases h
+  · exact specRun_plan cfg au answers .options (fromPlan_nil _) _ h
+
+open Handshake in
+/-- every PREPARE that is due carries the statement text of an `exec` action of the plan, unchanged -/
+theorem C03_hs_prepare_from_plan (cfg : Config) (au : Authn) (answers : List PeerAnswer) (stmt : Bytes) (ks : Option Bytes)
+    (pl : Payload) (z : Bool) (h : (Req.prepare stmt ks pl, z) ∈ specReqs cfg au answers) :
+    ∃ cons vals curKs, Action.exec stmt cons vals ∈ cfg.plan ∧ Req.prepare stmt ks pl = specPrepare cfg.v curKs stmt := by
+  simp only [specReqs, List.mem_cons] at h
+  rcases h with h | h
+  · cases h
+  · exact specRun_plan cfg au answers .options (fromPlan_nil _) _ h
+
 /-! ## non-vacuity -/
 
 /-- a v4 EXECUTE with named values, an unset value, page size, paging state, serial consistency,
@@ -530,6 +688,22 @@ example : ∃ bs, encodeReq 4 true 32767 0 exRich = .ok bs ∧
 example : Rejectable 3 (ask 0 exRich) = true := by decide
 example : mapEquiv (Req.startup [([1], [2]), ([3], [4])]) (Req.startup [([3], [4]), ([1], [2])]) :=
   List.Perm.swap _ _ _
+
+
+/-! non-vacuity of the compression theorems: the toy algorithm of the harness (FrameWrite.toyEnc: marker byte,
+    every byte xor 0x5A) satisfies the hypotheses -/
+theorem toy_inv (b : Bytes) : toyDec (toyEnc b) = some b := by
+  simp only [toyEnc, toyDec, List.map_map, Option.some.injEq]
+  have : ((fun x : UInt8 => x ^^^ 0x5A) ∘ fun x => x ^^^ 0x5A) = id := by
+    funext x; simp [UInt8.xor_assoc]
+  rw [this, List.map_id]
+
+example : ∃ bs, encodeReqC (some toyEnc) 4 true 32767 0 exRich = .ok bs ∧
+    decodeReqC toyDec bs = some ⟨4, true, 32767, ask 0 exRich, []⟩ ∧ decodeReq bs = none := by
+  refine ⟨_, rfl, ?_, by decide⟩
+  have := C03_roundtrip_compressed toyEnc toyDec toy_inv (by intro b hb; simp [toyEnc]; unfold maxFrameSize at hb; omega)
+    4 true 32767 0 exRich _ [] (by omega) (by omega) ⟨by decide, by decide⟩ (by decide) rfl
+  simpa using this
 
 /-! non-vacuity of the handshake theorems: a v4 connection with a compressor the peer offers, a
     three-round authenticator whose token is `t` ++ the latest challenge, then USE, REGISTER,
@@ -560,6 +734,28 @@ example : ∃ frames, encodeAll 4 0 [0, 0, 0, 0, 0, 0, 0, 0, 0] (modelReqs hsExC
 example (cls : Bytes) (cs : List (Option Bytes)) (i : Nat) :
     nextOf (hsExAuth.challenge (some cls :: cs.take i)) = true ∧
     hsExAuth.challenge (some cls :: cs.take (i + 1)) ≠ .fail := ⟨rfl, by simp [hsExAuth]⟩
+
+/-! non-vacuity of the cache theorems: a statement executed twice, then lost by the server -/
+def hsExCfg2 : Config := ⟨4, [0x33], [0x64], [0x31], none, false, 1, true,
+  [.exec [0x73] 6 [some [1]], .exec [0x73] 2 [none]], id⟩
+def hsExAnswers2 : List PeerAnswer :=
+  [.supported [], .ready, .prepared [9] 1, .void, .unprepared [9], .prepared [8, 8] 1, .void]
+
+example : (specReqs hsExCfg2 hsExAuth hsExAnswers2).map (·.1) =
+    [Req.options, Req.startup [(kCql, [0x33]), (kName, [0x64]), (kVersion, [0x31])],
+     Req.prepare [0x73] none [],
+     Req.execute [9] ⟨6, true, [⟨none, Val.bytes [1]⟩], none, none, none, none, none⟩ [],
+     Req.execute [9] ⟨2, true, [⟨none, Val.null⟩], none, none, none, none, none⟩ [],
+     Req.prepare [0x73] none [],
+     Req.execute [8, 8] ⟨2, true, [⟨none, Val.null⟩], none, none, none, none, none⟩ []] := by decide
+example : specFinal hsExCfg2 hsExAuth .options hsExAnswers2 = .stop .finished := by decide
+example : (GReq.execute [8, 8] (execParams hsExCfg2 [] 2 [none]) [], false) ∈ modelReqs hsExCfg2 hsExAuth hsExAnswers2 := by
+  decide
+example : ∃ n, PeerAnswer.prepared [8, 8] n ∈ hsExAnswers2 :=
+  C03_hs_execute_id_from_peer hsExCfg2 hsExAuth hsExAnswers2 [8, 8] (execParams hsExCfg2 [] 2 [none]) [] false (by decide)
+example : ∃ stmt cons vals curKs, Action.exec stmt cons vals ∈ hsExCfg2.plan ∧
+    Req.execute [8, 8] ⟨2, true, [⟨none, Val.null⟩], none, none, none, none, none⟩ [] = specExecute hsExCfg2 curKs [8, 8] cons vals :=
+  C03_hs_execute_from_plan hsExCfg2 hsExAuth hsExAnswers2 _ _ _ false (by decide)
 end HsExample
 
 end C03
